@@ -431,6 +431,8 @@ class SimSSHServer:
             if p.get('pre_gap_us'):
                 yield ('sleep', int(p['pre_gap_us']))      # a tarpit: one line at a time, each just inside the reader's timeout
         d = int(p.get('banner_delay_us', 0))
+        if d and not (int(p.get('banner_delay_from', 0)) <= pc.ordinal < int(p.get('banner_delay_until', 1 << 30))):
+            d = 0       # the delay applies to a range of this server's connections only (a server that becomes slow, or fast, later on)
         if d:
             yield ('sleep', d)
         yield ('send', 'banner', text_bytes(p['banner']) + eol)
